@@ -298,7 +298,7 @@ pub fn main_worker(
     for g in prop.plan(tier) {
         let mut n = shard;
         while n < g.count {
-            if skip.iter().any(|(sg, sn)| sg == g.name && *sn == n) {
+            if skip.iter().any(|(sg, sn)| sg == g.name && (*sn == n || *sn == u64::MAX)) {
                 n += nshards;
                 continue;
             }
@@ -325,6 +325,9 @@ struct Shard {
     skip: Vec<(String, u64)>,
     crashes: u32,
     done: bool,
+    /// last progress seen and when it last changed (stall detection)
+    at: Option<(String, u64)>,
+    since: Instant,
 }
 
 fn spawn_worker(
@@ -393,6 +396,8 @@ pub fn main_run(prop: &'static dyn Prop, tier: Tier, seed: u64) -> i32 {
             skip: vec![],
             crashes: 0,
             done: false,
+            at: None,
+            since: Instant::now(),
         })
         .collect();
     let mut total = Rec::default();
@@ -403,6 +408,7 @@ pub fn main_run(prop: &'static dyn Prop, tier: Tier, seed: u64) -> i32 {
             .unwrap_or(prop.watchdog_secs(tier)),
     );
     let mut watchdog_fired = false;
+    let mut last_poll = Instant::now();
     loop {
         let mut all_done = true;
         for sh in shards.iter_mut() {
@@ -455,6 +461,53 @@ pub fn main_run(prop: &'static dyn Prop, tier: Tier, seed: u64) -> i32 {
         }
         if all_done {
             break;
+        }
+        // Stall detection: a worker sitting on one case for too long is killed; the case is confirmed in isolation
+        if last_poll.elapsed() > Duration::from_millis(500) {
+            last_poll = Instant::now();
+            for sh in shards.iter_mut() {
+                if sh.done {
+                    continue;
+                }
+                let cur = read_progress(&outdir, sh.idx);
+                if cur != sh.at {
+                    sh.at = cur;
+                    sh.since = Instant::now();
+                    continue;
+                }
+                let (g, n) = match &sh.at {
+                    Some(x) => x.clone(),
+                    None => continue,
+                };
+                let isolated = plan.iter().any(|p| p.name == g && p.isolate);
+                let limit = if isolated { 3 * prop.case_timeout_secs() + 30 } else { prop.stall_secs(tier) };
+                if sh.since.elapsed() < Duration::from_secs(limit) {
+                    continue;
+                }
+                if let Some(c) = sh.child.as_mut() {
+                    let _ = c.kill();
+                    let _ = c.wait();
+                }
+                sh.crashes += 1;
+                let hang_sig = format!("{}|hang", g);
+                let already = total.violation_counts.contains_key(&hang_sig);
+                eprintln!("worker {} stalled {}s at {}:{}; {}", sh.idx, limit, g, n, if already { "generator already has a confirmed hang, skipping its remaining cases in this shard" } else { "confirming in isolation" });
+                if already {
+                    *total.violation_counts.entry(hang_sig).or_insert(0) += 1;
+                    sh.skip.push((g.clone(), u64::MAX));
+                } else {
+                    run_isolated(prop, &mut total, tier, seed, &g, n, &outdir);
+                    sh.skip.push((g.clone(), n));
+                }
+                if sh.crashes <= 8 {
+                    sh.child = Some(spawn_worker(prop.id(), tier, seed, sh.idx, nshards, &outdir, &sh.skip));
+                    sh.at = None;
+                    sh.since = Instant::now();
+                } else {
+                    total.inconclusive.push(format!("shard {}: stalled/crashed {} times, results lost", sh.idx, sh.crashes));
+                    sh.done = true;
+                }
+            }
         }
         if t0.elapsed() > deadline {
             watchdog_fired = true;
